@@ -1098,6 +1098,11 @@ class Interp:
     def builtin(self, f, args, kwargs, node):
         n = f.name
         if n == "range":
+            if len(args) == 1 and isinstance(args[0], Poly) and \
+                    not args[0].is_const() and \
+                    getattr(self, "symbolic_range", None) is not None:
+                # an index range of symbolic extent used as an array
+                return self.symbolic_range(args[0])
             ints = []
             for a in args:
                 if isinstance(a, SymInt):
